@@ -232,8 +232,9 @@ pub fn exec_deep(input: &Value) -> Value {
 pub fn generate(thorough: bool, seed: u64, em: &mut Emitter) {
     // key-binding JWTs whose hash commitment is shorter or longer than the digest it is compared with (empty, a prefix,
     // another algorithm's length, padded): the verifier answers with an error, whatever the comparison looks like inside
-    super::c05::generate_kinds(&["hash_prefix", "hash_empty", "hash_other_alg", "hash_extended", "hash_padded", "hash_prefix_dropped_disclosure", "hash_not_string"],
-                               if thorough { 400 } else { 42 }, seed ^ 0x10, em);
+    super::c05::generate_kinds(&["hash_prefix", "hash_empty", "hash_other_alg", "hash_extended", "hash_padded", "hash_prefix_dropped_disclosure", "hash_not_string", "kb_followed_by_space"],
+                               if thorough { 400 } else { 56 }, seed ^ 0x10, em);
+    super::c05::generate_kinds(&["kb_followed_by_space"], if thorough { 200 } else { 24 }, seed ^ 0x11, em);
     // the second-stage API on an object made from untrusted input: Holder::presentation(..).redact(..).build() with paths
     // of one-, two-, three- and four-byte characters whose lengths fall inside each other's characters
     {
